@@ -36,6 +36,11 @@ objs=[f*dx((1,2), degree=1) + g*g*dx(1, degree=3), x[0]*dx((0,2), degree=1) + x[
     corpus._c("c06_several_forms", '''
 m=mesh("tetrahedron"); V=space(m,"P",1); u,v=TrialFunction(V),TestFunction(V); f=Coefficient(V); c=Constant(m,shape=(3,)); k=Constant(m)
 objs=[inner(grad(u),grad(v))*dx(1)+u*v*ds(2), k*f*v*dx + dot(c,grad(f))*v*ds(5), f*f*dx(2)+f*dS]'''),
+    # ids that are integers without being Python ints (taken from an array of mesh tags)
+    corpus._c("c06_numpy_integer_ids", '''
+m=mesh("triangle"); V=space(m,"P",1); u,v=TrialFunction(V),TestFunction(V); f=Coefficient(V); tags=np.array([1,3,6],dtype=np.int32)
+objs=[u*v*dx + 2*u*v*dx(tags[0]) + 3*u*v*dx(2) + 5*u*v*dx(tags[1]) + u*v*ds((np.int64(4),7)) + 7*u*v*ds,
+      f*v*dx(np.int32(6)) + f*f*v*dx(6,degree=3) + v*dx, f*dS(np.int64(2)) + f*f*dS(int(tags[1]))]'''),
     corpus._c("c06_vertex_and_everywhere", '''
 m=mesh("interval"); V=space(m,"P",2); u,v=TrialFunction(V),TestFunction(V)
 objs=[u*v*dx + u*v*dP(2) + u*v*dP + u*v*ds(1)]'''),
